@@ -963,11 +963,19 @@ class CallsMixin:
         for name, text in c.requires:
             goal = self.truth(self.spec_eval(text, env, st, mod, c), st)
             self.ctx.oblige(f"L{self.cur_line}/call:{c.name}/{name}", st, goal, kind="call-pre")
-        res = V.fresh(c.result, "r_" + c.key.split(":")[1].split(".")[-1]) if c.result is not None else VNONE
-        if c.result is not None:
-            st.assume(Q.deep_wf(self, res))
+        from .contract import MapOf
+        if isinstance(c.result, MapOf):
+            items = {}
+            for k, sh in c.result.items():
+                items[k] = V.fresh(sh, "r_map")
+                st.assume(Q.deep_wf(self, items[k]))
+            res = V.vconc(PyMap(items=items))
+        else:
+            res = V.fresh(c.result, "r_" + c.key.split(":")[1].split(".")[-1]) if c.result is not None else VNONE
+            if c.result is not None:
+                st.assume(Q.deep_wf(self, res))
         env["result"] = res
-        if c.defines:
+        if c.defines and not isinstance(c.result, MapOf):
             dv = self.spec_eval(c.defines, env, st, mod, c)
             st.assume(self.py_eq(res, V.coerce(self.as_sym(dv), c.result)))
         for exc, cond in c.raises.items():
